@@ -249,6 +249,16 @@ def annotate_loops(body, loops_spec, fname):
     for ordn in sorted(loops_spec, reverse=True):
         kw, ob, cb = loops[ordn]
         spec = loops_spec[ordn]
+        # conditional clauses `[?name: text ?]` are kept only when the local `name` occurs in the function body, so that
+        # invariants about incidental temporaries do not turn a refactoring into a front-end error
+        def _cond(txt):
+            def rep(m):
+                return m.group(2) if re.search(r'\b' + re.escape(m.group(1)) + r'\b', body) else ''
+            return re.sub(r'\[\?(\w+):(.*?)\?\]', rep, txt, flags=re.S)
+        if isinstance(spec, dict):
+            spec = {k: _cond(v) for k, v in spec.items()}
+        else:
+            spec = _cond(spec)
         if isinstance(spec, dict):
             pre = spec.get('spec', '')
             top = spec.get('body_top', '')
